@@ -337,8 +337,8 @@ func pureCase(run *sim.Run, i int) {
 	if i%4 == 0 { // bound the memory of the distinct set; still a measured cardinality
 		run.Distinct(fmt.Sprintf("pure|%s|%d|%d|%d|%v", class, len(weights), cnt, tries, best))
 	}
-	if i < 2 {
-		run.Sample(map[string]any{"layer": "pure", "case": i, "class": class, "n": len(weights), "cnt": cnt, "tries": tries,
-			"seed_len": entLen, "nonce": in.Nonce, "committee": best, "first_weights": weights[:min(6, len(weights))]})
+	if i < 400 && len(weights) >= 4 && len(weights) <= 10 && cnt >= 2 && cnt < pos {
+		samples.offer("pure", i, map[string]any{"layer": "pure", "case": i, "class": class, "n": len(weights), "cnt": cnt, "tries": tries,
+			"seed_len": entLen, "nonce": in.Nonce, "committee": best, "weights": weights, "entropy": in.Entropy, "personalization": string(pers)})
 	}
 }
